@@ -59,8 +59,34 @@ func (s *Server) blobGet(repoStr, arg string) http.HandlerFunc {
 		w.Header().Add("Content-Type", "application/octet-stream")
 		w.Header().Add(types.HeaderDockerDigest, d.String())
 		// use ServeContent to handle range requests
-		http.ServeContent(w, r, "", time.Time{}, rdr)
+		http.ServeContent(&rangeErrWriter{ResponseWriter: w}, r, "", time.Time{}, rdr)
 	}
+}
+
+// rangeErrWriter replaces the plain text body that [http.ServeContent] sends for an unsatisfiable range with an OCI error response.
+type rangeErrWriter struct {
+	http.ResponseWriter
+	rangeErr bool
+}
+
+func (w *rangeErrWriter) WriteHeader(code int) {
+	if code != http.StatusRequestedRangeNotSatisfiable {
+		w.ResponseWriter.WriteHeader(code)
+		return
+	}
+	w.rangeErr = true
+	w.Header().Set("Content-Type", "application/json")
+	w.Header().Del("Content-Length")
+	w.ResponseWriter.WriteHeader(code)
+	_ = types.ErrRespJSON(w.ResponseWriter, types.ErrInfoSizeInvalid("requested range is not satisfiable"))
+}
+
+func (w *rangeErrWriter) Write(b []byte) (int, error) {
+	if w.rangeErr {
+		// discard the plain text error from ServeContent
+		return len(b), nil
+	}
+	return w.ResponseWriter.Write(b)
 }
 
 func (s *Server) blobDelete(repoStr, arg string) http.HandlerFunc {
